@@ -462,13 +462,13 @@ restrict SetMode in rfmt [C02,C05,C06] to pp.startPrint, pp.startUnsafe, pp.star
 -- The leaf renderers of the printer are reached only through the operand dispatch (printArg / printValue / handleMethods),
 -- which is where an operand is classified (wrappers, SafeValue, registered types, redactables, methods): a caller that
 -- renders an operand directly skips that classification
-restrict pp.fmtString in rfmt [C02,C05,C06] to pp.printArg, pp.printValue, pp.handleMethods "operands are classified by the dispatch before they are rendered"
-restrict pp.fmtBool in rfmt [C02,C05,C06] to pp.printArg, pp.printValue "operands are classified by the dispatch before they are rendered"
-restrict pp.fmtInteger in rfmt [C02,C05,C06] to pp.printArg, pp.printValue, pp.fmtBytes, pp.fmtPointer, pp.SafeInt, pp.SafeUint "operands are classified by the dispatch before they are rendered (SafeInt/SafeUint are explicit safe emitters)"
-restrict pp.fmtFloat in rfmt [C02,C05,C06] to pp.printArg, pp.printValue, pp.fmtComplex, pp.SafeFloat "operands are classified by the dispatch before they are rendered"
-restrict pp.fmtComplex in rfmt [C02,C05,C06] to pp.printArg, pp.printValue "operands are classified by the dispatch before they are rendered"
-restrict pp.fmtBytes in rfmt [C02,C05,C06] to pp.printArg, pp.printValue "operands are classified by the dispatch before they are rendered"
-restrict pp.fmtPointer in rfmt [C02,C05,C06] to pp.printArg, pp.printValue "operands are classified by the dispatch before they are rendered"
+restrict pp.fmtString in rfmt [C02,C05,C06,C09] to pp.printArg, pp.printValue, pp.handleMethods "operands are classified by the dispatch before they are rendered"
+restrict pp.fmtBool in rfmt [C02,C05,C06,C09] to pp.printArg, pp.printValue "operands are classified by the dispatch before they are rendered"
+restrict pp.fmtInteger in rfmt [C02,C05,C06,C09] to pp.printArg, pp.printValue, pp.fmtBytes, pp.fmtPointer, pp.SafeInt, pp.SafeUint "operands are classified by the dispatch before they are rendered (SafeInt/SafeUint are explicit safe emitters)"
+restrict pp.fmtFloat in rfmt [C02,C05,C06,C09] to pp.printArg, pp.printValue, pp.fmtComplex, pp.SafeFloat "operands are classified by the dispatch before they are rendered"
+restrict pp.fmtComplex in rfmt [C02,C05,C06,C09] to pp.printArg, pp.printValue "operands are classified by the dispatch before they are rendered"
+restrict pp.fmtBytes in rfmt [C02,C05,C06,C09] to pp.printArg, pp.printValue "operands are classified by the dispatch before they are rendered"
+restrict pp.fmtPointer in rfmt [C02,C05,C06,C09] to pp.printArg, pp.printValue "operands are classified by the dispatch before they are rendered"
 
 -- C12: the package-level state two calls can share. Everything else a call touches is its own printer.
 shared rfmt.ppFree "sync.Pool is safe for concurrent use and hands an object to one caller at a time (its documented contract); what is Put obeys PoolInv"
